@@ -482,6 +482,67 @@ def check_member_loops_complete(ctx):
     ctx.ok(R1, "artefacts:member-loops", f"{n} loops over fixed member-name lists examined", "")
 
 
+def check_no_filtered_positional_splat(ctx):
+    """A reader that hands optional members to the constructor positionally must keep absent members in place (None): splatting a
+    *filtered* sequence (`cls(values, *[m for k in KEYS if k in record])`) shifts every member after an absent one into the wrong
+    constructor slot."""
+    repo = ctx.repo
+    n = 0
+    for name, w, r, root, allow in PAIRS:
+        if root is None:
+            continue
+        fi = repo.func(r)
+        d = Defs(fi.node)
+        for c in body_walk(fi.node):
+            if not (isinstance(c, ast.Call) and any(isinstance(a, ast.Starred) for a in c.args)):
+                continue
+            fn = dotted(c.func) or ""
+            if not (fn == "cls" or fn[:1].isupper()):
+                continue
+            for a in c.args:
+                if not isinstance(a, ast.Starred):
+                    continue
+                n += 1
+                v = a.value
+                if isinstance(v, ast.Name):
+                    ds = [x for x in d.defs.get(v.id, []) if isinstance(x, ast.AST)]
+                    v = ds[0] if len(ds) == 1 else v
+                filt = isinstance(v, (ast.ListComp, ast.GeneratorExp)) and any(g.ifs for g in v.generators)
+                filt = filt or (isinstance(v, ast.Call) and dotted(v.func) == "filter")
+                if filt:
+                    ctx.violation(R4, f"{fi.key}:positional-splat", f"{fi.qualname}: `{short(c, 70)}` fills constructor slots positionally from the filtered sequence {short(v, 90)}: when an optional member is absent from the record the members after it move one slot forward (covariances loaded as correlations)", f"{fi.module.relpath}:{c.lineno}")
+                else:
+                    ctx.ok(R4, f"{fi.key}:positional-splat", "positional members come from an unfiltered sequence", fi)
+    ctx.ok(R4, "artefacts:positional-splat", f"{n} starred constructor arguments examined in the readers", "")
+
+
+def check_list_saved_as_given(ctx):
+    """save_list stores the list it was given: routing it through a numpy array first (np.asarray(x).tolist(), np.array(x))
+    coerces a list of mixed element types to one dtype (['theta_0', 0.25] -> ['theta_0', '0.25']) and rejects ragged lists."""
+    f = ctx.repo.func("utils:save_list")
+    ctx.analysed(f)
+    p0 = positional_params(f.node)[0]
+    d = Defs(f.node)
+    stores = [st for st in body_walk(f.node) if isinstance(st, ast.Assign) and isinstance(st.targets[0], ast.Subscript) and const_str(st.targets[0].slice) == "list"]
+    lits = [v for st in body_walk(f.node) if isinstance(st, ast.Assign) for v in ([st.value] if isinstance(st.value, ast.Dict) else []) for k, vv in zip(v.keys, v.values) if const_str(k) == "list"]
+    vals = [st.value for st in stores] + [vv for st in body_walk(f.node) if isinstance(st, ast.Assign) and isinstance(st.value, ast.Dict) for k, vv in zip(st.value.keys, st.value.values) if const_str(k) == "list"]
+    if len(vals) != 1:
+        ctx.undecided(R1, f.key + ":as-given", f"expected one value stored under \"list\", found {len(vals)}", f)
+        return
+    v = vals[0]
+    hops = 0
+    while isinstance(v, ast.Name) and v.id != p0 and hops < 4:
+        ds = [x for x in d.defs.get(v.id, []) if isinstance(x, ast.AST)]
+        if len(ds) != 1:
+            break
+        v, hops = ds[0], hops + 1
+    through_numpy = [c for c in ast.walk(v) if isinstance(c, ast.Call) and (dotted(c.func) or "").split(".")[-1] in ("asarray", "array", "asanyarray", "fromiter")]
+    if through_numpy:
+        ctx.violation(R1, f.key + ":as-given", f"the list is stored as `{short(v, 80)}`: converting it to a numpy array first gives every element one dtype (a list mixing strings and numbers comes back as strings) and fails for ragged lists, so what is loaded is not the list that was saved", f"{f.module.relpath}:{v.lineno}")
+    else:
+        ctx.check(norm(v) in (p0, f"list({p0})"), R1, f.key + ":as-given", "the given list is what is stored", f"save_list stores {short(v, 80)}, not the list it was given", f"{f.module.relpath}:{getattr(v, 'lineno', f.node.lineno)}")
+
+
 def _has_optional_number(repo, fi) -> bool:
     from ..lints import _optional_numeric, _return_slots
 
@@ -510,6 +571,8 @@ def run(ctx):
     check_zero_is_a_value(ctx)
     check_present_keys_by_membership(ctx)
     check_member_loops_complete(ctx)
+    check_list_saved_as_given(ctx)
+    check_no_filtered_positional_splat(ctx)
     check_members_saved_individually(ctx)
     check_loaded_arrays_unchanged(ctx)
     # what a loader returns is a function of the artefact's current contents: a table of results kept in module state (keyed by
@@ -526,6 +589,13 @@ def run(ctx):
         if k not in seen and ctx.repo.has_func(k):
             seen.append(k)
     check_hidden_state(ctx, "C11-D6 serde-stateless", [ctx.repo.func(k) for k in seen], effects_for(ctx), argument_caches=True)
+    # the operator reader re-assembles the sum with `+=`, i.e. through PauliSum.__add__ and simplify(): "denotes the same matrix"
+    # after loading therefore rests on simplification never changing the denoted matrix -- decided once, by C03-D5
+    from ..common import share_rule
+    from . import c03
+
+    share_rule(ctx, "C03", c03.check_simplify, "C11-D7 reassembly-by-simplify")
+    ctx.floor("C11-D7", 4)
     ctx.floor("C11-D6", 30)
     from ..lints import one_sided_signed_part_tests
 
